@@ -18,13 +18,13 @@ EARLY = ("ST",)
 
 
 def run_session(name_variant: str, expected: bool, app: tuple[str, ...], cuts: tuple[int, ...], probe_send: bool = False,
-                recycled: bool = False) -> dict[str, Any]:
+                recycled: bool = False, listener: str = "") -> dict[str, Any]:
     """One fresh session (fresh client ephemeral key) whose server stream is cut at ``cuts``; () = one chunk, (-1,) = byte-wise."""
     from aioesphomeapi.core import APIConnectionError, BadNameAPIError
 
     exp = EXPECTED if expected else None
     Session.RECYCLED[0] = recycled
-    s = Session(name_variant, exp, app, early=EARLY)
+    s = Session(name_variant, exp, app, early=EARLY, listener=listener)
     w = s.w
     try:
         stream = s.stream()
@@ -78,9 +78,16 @@ def run_session(name_variant: str, expected: bool, app: tuple[str, ...], cuts: t
             # deliveries after this chunk = data frames completely received so far, in order
             n_exp = sum(1 for e in ends[2:] if e <= q)
             got = s.probe.calls
-            if got != s.plain[:n_exp]:
+            want_plain = [p for p in s.plain[:n_exp] if p[0] != "-"]
+            if listener and not viol:
+                first = [p[1] for p in s.plain[:n_exp] if p[0] == "SensorStateResponse"][:1]
+                if s.oneshot_calls != first:
+                    viol = (f"after {q} server bytes: the one-shot listener (unsubscribes itself inside its first call) was called "
+                            f"{len(s.oneshot_calls)} times, {len(first)} expected")
+                    break
+            if got != want_plain:
                 viol = (f"after {q} server bytes: {len(got)} messages delivered ({[g[0] for g in got]}), the responder has completely sent "
-                        f"{n_exp} ({[p[0] for p in s.plain[:n_exp]]})")
+                        f"{n_exp} ({[p[0] for p in s.plain[:n_exp]]}){' [listener=' + listener + ']' if listener else ''}")
                 break
         out = w.outcome("finish")
         res = w.results.get("finish")
@@ -168,6 +175,18 @@ def run(tier: str, seed: int) -> Result:
                     jobs.append(("equal", True, big, (c,), False))
         jobs.append(("equal", True, big, tuple(range(4096, nb, 4096)), False))
     jobs.append(("equal", True, ("ST", "BIG:32742", "ST"), (-1,), False))
+    # 5. a user listener that unsubscribes itself from inside its first call (next to the all-types probe, and as the only
+    #    subscriber of its type): the frames after it are still delivered, in order
+    for lst in ("oneshot", "lone"):
+        appl = ("ST", "ST", "PR", "ST")
+        nl, endsl = stream_layout("equal", True, appl)
+        jobs.append(("equal", True, appl, (), False, False, lst))
+        jobs.append(("equal", True, appl, (-1,), False, False, lst))
+        jobs.append(("equal", True, appl, (), False, True, lst))
+        for e in endsl:
+            for c in (e - 1, e, e + 2):
+                if 0 < c < nl:
+                    jobs.append(("equal", True, appl, (c,), False, False, lst))
     if not q:
         # <= 3 cuts on a two-frame session
         n2, ends2 = stream_layout("absent", False, ("ST",))
@@ -183,7 +202,8 @@ def run(tier: str, seed: int) -> Result:
         if o["viol"]:
             kind = o["viol"].split(":")[0][:60]
             res.add(f"name={a[0]},expected={a[1]},app={a[2]},cuts={a[3]}|{kind}", o["viol"],
-                    {"harness": "c03", "name_variant": a[0], "expected": a[1], "app": list(a[2]), "cuts": list(a[3]), "probe_send": a[4]})
+                    {"harness": "c03", "name_variant": a[0], "expected": a[1], "app": list(a[2]), "cuts": list(a[3]), "probe_send": a[4],
+                     "recycled": a[5] if len(a) > 5 else False, "listener": a[6] if len(a) > 6 else ""})
     if len(res.violations) > 6:
         res.violations = res.violations[:6]
     if not res.violations and (len(outs) < 5000 or rejects < 50):
@@ -213,6 +233,7 @@ def run(tier: str, seed: int) -> Result:
 def replay(rp: dict[str, Any]) -> bool:
     env.load()
     d = rp["detail"]
-    o = run_session(d["name_variant"], d["expected"], tuple(d["app"]), tuple(d["cuts"]), d.get("probe_send", False))
+    o = run_session(d["name_variant"], d["expected"], tuple(d["app"]), tuple(d["cuts"]), d.get("probe_send", False),
+                    d.get("recycled", False), d.get("listener", ""))
     print(o)
     return o["viol"] is None
